@@ -3,6 +3,7 @@ import TucanProofs.Lemmas.SpliceAny
 import TucanProofs.Lemmas.WriteRead
 import TucanProofs.Examples
 import TucanProofs.Lemmas.WriteReadAny
+import TucanProofs.Lemmas.Chain
 /-!
 # C09 — written molfiles read back as the same molecule, at any line length
 
@@ -54,6 +55,34 @@ theorem C09_write_read_any_listing (g : Graph) (hw : g.WF) (hs : g.Simple)
           (j, ({ btype := some bt } : Bond)) ∈ g'.nbrsD i ↔
           ∃ d, (g.nodes[j].id, d) ∈ g.nbrsD g.nodes[i].id ∧ d.btype.getD 1 = bt) :=
   write_read_any_listing g hw hs hlab hatoms hbonds hsize hdr hh
+
+/-- **The graph read back is the written molecule**: for a molecule graph listed in any order, writing and
+reading back gives a graph related to it by `Iso SameIdent` (atom ↦ its listing position), hence with the same
+TUCAN string. -/
+theorem C09_write_read_same_string (O : CanonOracle) (g : Graph) (hw : g.WF) (hs : g.Simple)
+    (hlab : g.labels.Perm (List.range g.numberOfNodes)) (hmol : g.MolAtoms)
+    (hatoms : ∀ n ∈ g.nodes, WritableAtom n)
+    (hbonds : ∀ n ∈ g.nodes, ∀ e ∈ n.nbrs, ∀ bt, e.2.btype = some bt → (intRepr bt).length ≤ intMaxStrDigits)
+    (hsize : (natRepr (g.numberOfNodes + g.numberOfEdges + 1)).length ≤ intMaxStrDigits)
+    (hdr : Str) (hh : GoodHeader hdr) (lines : List Str) (g' : Graph)
+    (hwr : graphToMolfileLines g hdr = .ok lines) (hrd : graphFromMolfileText (joinLines lines) = .ok g')
+    (s s' : Str) (h : tucanOf O.order g = .ok s) (h' : tucanOf O.order g' = .ok s') : s = s' :=
+  write_read_same_string O g hw hs hlab hmol hatoms hbonds hsize hdr hh lines g' hwr hrd s s' h h'
+
+/-- **Consequently string → graph → molfile → graph → string returns the original TUCAN string**: start from
+the string `s` of a molecule, parse it, write the parsed graph, read the file, run the pipeline on what was read
+— the result is `s`.  (The parsed graph must be writable: radicals within the format's range 1–3.) -/
+theorem C09_string_molfile_string (O : CanonOracle) (g0 : Graph) (hw0 : g0.WF) (hs0 : g0.Simple) (hmol0 : g0.MolAtoms)
+    (hsize0 : (natRepr (g0.numberOfNodes + 1)).length ≤ intMaxStrDigits)
+    (s : Str) (h0 : tucanOf O.order g0 = .ok s)
+    (H : Graph) (hp : graphFromTucan s = .ok H)
+    (hatoms : ∀ n ∈ H.nodes, WritableAtom n)
+    (hbonds : ∀ n ∈ H.nodes, ∀ e ∈ n.nbrs, ∀ bt, e.2.btype = some bt → (intRepr bt).length ≤ intMaxStrDigits)
+    (hsize : (natRepr (H.numberOfNodes + H.numberOfEdges + 1)).length ≤ intMaxStrDigits)
+    (hdr : Str) (hh : GoodHeader hdr) (lines : List Str) (g' : Graph)
+    (hwr : graphToMolfileLines H hdr = .ok lines) (hrd : graphFromMolfileText (joinLines lines) = .ok g')
+    (s' : Str) (h' : tucanOf O.order g' = .ok s') : s' = s :=
+  string_molfile_string O g0 hw0 hs0 hmol0 hsize0 s h0 H hp hatoms hbonds hsize hdr hh lines g' hwr hrd s' h'
 
 /-- **No line is longer than 80 characters including the newline**, for logical lines of every length. -/
 theorem C09_line_length (line : Str) : ∀ p ∈ addV30Line line, p.length ≤ 79 := addV30Line_length_le line
